@@ -272,8 +272,6 @@ def configs(tier):
         out.append(dict(case='pool', method='corr', n_rdm=n_rdm, n_cond=n_cond))
     out.append(dict(case='ceil', method='corr', n_rdm=2, n_cond=3))
     out.append(dict(case='nan', method='corr', n_rdm=2, n_cond=4, nan_at=[0, 3, 5]))
-    if not quick:
-        out.append(dict(case='optimal', method='corr', n_rdm=2, n_cond=3))     # ~40-100 s of nlsat
     out.append(dict(case='pool', method='rho-a', n_rdm=2, n_cond=3))
     out.append(dict(case='pool', method='rho-a', n_rdm=1, n_cond=4, nan_at=[0, 2, 3]))
     out.append(dict(case='ceil', method='rho-a', n_rdm=2, n_cond=3))
